@@ -42,6 +42,7 @@ PROPS["C02"] = {
         ("contracts.wordcode", "xdis.cross_dis:unpack_opargs_bytecode_310/3.11+"),
         ("contracts.wordcode", "xdis.cross_dis:unpack_opargs_bytecode"),
         ("contracts.decoder", "xdis.bytecode:get_instructions_bytes"),
+        ("contracts.decoder", "xdis.bytecode:get_instructions_bytes/bytecode"),
         # the per-offset decoder (operand folding, EXTENDED_ARG carry, instruction size): every table in the thorough tier and
         # in C03's quick tier; one table per encoding family here
         ("contracts.decoder", "xdis.bytecode:get_logical_instruction_at_offset", {"quick": ["15", "27", "35", "38", "310", "311", "313"], "thorough": None}),
@@ -134,6 +135,7 @@ PROPS["C20"] = {
         ("contracts.std", "xdis.std:_StdApi.get_instructions/first_line=None"),
         ("contracts.std", "xdis.std:_StdApi.findlabels"),
         ("contracts.decoder", "xdis.bytecode:get_instructions_bytes"),
+        ("contracts.decoder", "xdis.bytecode:get_instructions_bytes/bytecode"),
         # callees the wrappers rely on: the per-offset decoder (tables of the hosts that can run xdis, all in the
         # thorough tier) and the label finders
         ("contracts.decoder", "xdis.bytecode:get_logical_instruction_at_offset", {"quick": ["38", "39", "310", "311", "312", "313"], "thorough": None}),
@@ -240,8 +242,8 @@ PROPS["C07"] = {
 # ---------------------------------------------------------------------------------------------
 # level texts / notes (MANIFEST)
 _T = {
- "C02": ("For every opcode table (39 tables, 1.0-3.13 + PyPy) the three operand unpackers are proved equal, for all code byte strings, to CPython's _unpack_opargs of that version family (pointwise: offset, opcode, folded operand incl. EXTENDED_ARG chains; 3.11+ under the stated well-formedness of inline caches); the per-offset decoder's Instruction fields are proved against the same spec.",
-         "pyvc's encoding of the Python subset; spec functions validated against the 9 installed CPythons only for 2.7, 3.6-3.13 (other tables: format documentation, relative to C09); the stream driver get_instructions_bytes itself is not yet under contract (its callee, the per-offset decoder, is)."),
+ "C02": ("For every opcode table (39 tables, 1.0-3.13 + PyPy) the three operand unpackers are proved equal, for all code byte strings, to CPython's _unpack_opargs of that version family (pointwise: offset, opcode, folded operand incl. EXTENDED_ARG chains; 3.11+ under the stated well-formedness of inline caches); the per-offset decoder's Instruction fields are proved against the same spec, and the stream driver get_instructions_bytes is proved to yield exactly CPython's instruction sequence (offset of the k-th instruction, opcode, globally folded operand) for every table.",
+         "pyvc's encoding of the Python subset; spec functions validated against the 9 installed CPythons only for 2.7, 3.6-3.13 (other tables: format documentation, relative to C09); the stream driver get_instructions_bytes is under contract for every table (word code: 3.6+; byte code: 1.0-3.5, where 'the logical instruction at each instruction start ends inside the code' is an assumed well-formedness precondition)."),
  "C03": ("The per-offset decoder get_logical_instruction_at_offset is proved, per opcode table and for all code bytes / operands / table contents, to resolve argval as CPython's dis does for constants, names (incl. 3.11+ LOAD_GLOBAL/LOAD_ATTR/LOAD_SUPER_ATTR shifts), locals/free variables (incl. 3.11+ localsplus and 3.13 paired operands), compare operators (3.12/3.13 shifts) and jump targets.",
          "co_varnames / cell+free tables bounded to 2 and 1 symbolic names in the proof (constants, names unbounded); localsplus is xdis's reconstruction from (varnames, cellvars+freevars); IndexError on out-of-range table indices is allowed; known finding: cmp_op spelling."),
  "C04": ("All three label finders are proved, per opcode table and for all code bytes, to return exactly the set of jump targets CPython's dis.findlabels computes (relative/absolute, word scaling from 3.10, backward jumps from 3.11, inline-cache skips in 3.12/3.13); the decoder's jump argval and is_jump_target are proved against the same spec.",
@@ -262,7 +264,7 @@ _T = {
          "sub-objects are abstract (OBJ/END/NREF: modular induction, termination not proved here); format transcribed from marshal.c knowledge in spec/marshal_fmt.py and validated behaviourally against the marshal of 9 interpreters; 2.0 (magic 50823) layout not shipped: no oracle can arbitrate whether 2.0 code objects have free/cell variables; PyPy/Graal layouts not covered; bounded: 3.11+ localsplus with two names."),
  "C10": ("Each value reader of the unmarshaller (int32, int64, long digits, the seven length-prefixed string kinds, unicode, back references, interned-string references, small/large tuples, sets, frozensets) is proved, for all inputs, to read the field widths/signs the format defines, to consume exactly its encoding, to read its children in order with bytes_for_s passed on, and to keep the reference-table discipline (slot index = references recorded before, reserved before the children, filled with the finished object).",
          "list/dict/float-text/complex readers, UTF-8 decoding and the equality of decoded *contents* are covered by the bounded differential against the real marshal (host marshal values, hand-assembled encodings, code objects of 9 interpreters)."),
- "C20": ("The std wrappers are proved to be plumbing into verified code: _StdApi.get_instructions / Bytecode.get_instructions invoke the stream driver exactly once with the API object's own opcode table, the code's own byte string and tables, the line starts computed for that code and line_offset = first_line - co_firstlineno; _StdApi.findlabels returns the CPython label set; the driver get_instructions_bytes is proved (3.6+ tables) to tile the code in words with CPython's globally folded operands and to pass the decoder's is_jump_target / starts_line (incl. the first_line shift) through; the decoder and label finders it relies on are proved per table.",
+ "C20": ("The std wrappers are proved to be plumbing into verified code: _StdApi.get_instructions / Bytecode.get_instructions invoke the stream driver exactly once with the API object's own opcode table, the code's own byte string and tables, the line starts computed for that code and line_offset = first_line - co_firstlineno; _StdApi.findlabels returns the CPython label set; the driver get_instructions_bytes is proved (all tables: words for 3.6+, 1/3-byte instructions before) to tile the code with CPython's globally folded operands and to pass the decoder's is_jump_target / starts_line (incl. the first_line shift) through; the decoder and label finders it relies on are proved per table.",
          "object coercion (functions, methods, generators, source strings -> code) and module-level tables are compared with the host's dis only by the bounded host differential; code objects with an exception table take the exception_entries path that is outside the driver's contract; dict(findlinestarts(..)) is an abstract map tied to its source sequence."),
  "C16": ("codeType2Portable, Code38/Code310/Code311.to_native and Code13.replace are proved, for each host 3.8-3.13 (attribute set and positional constructor order of types.CodeType taken from the real interpreters), to map every field to the same field (in particular the host's real line table and exception table), to choose the portable class of the host's version, and to leave the original object unchanged.",
          "field values are abstract tokens (identity + type): a plumbing proof; types.CodeType is an external constructor modelled by its positional order; a frame condition (no attribute added to the portable object) is part of the contract."),
